@@ -33,9 +33,9 @@ def spec(w, src, env=None):
     return w.ex(ast.parse(src, mode='eval').body, State(dict(env or {})))
 
 
-def _final_attr_values(o, objname):
+def _final_attr_values(o, objname, initial=None):
     """final values of objname.<attr> after plain stores and *= updates, in program order"""
-    vals = {}
+    vals = dict(initial or {})
     for e in sorted(o.state.events, key=lambda e_: e_.seq):
         if e.kind == 'store' and isinstance(e.index, str) and e.name == '%s.%s' % (objname, e.index):
             if e.aug is None:
@@ -63,12 +63,57 @@ def _obj_of(o):
     raise shape_error('conversion does not return its result object')
 
 
+def _init_fields(ctx, clsname):
+    """constructor parameter -> attribute it initialises, read off `self.<attr> = <param>` in the class's __init__"""
+    for q, c in ctx.prog.classes.items():
+        if c.name == clsname and q.startswith(OC + '.') and '__init__' in c.methods:
+            fi = c.methods['__init__']
+            params = fi.params[1:]
+            m = {}
+            for st_ in ast.walk(fi.node):
+                if isinstance(st_, ast.Assign) and len(st_.targets) == 1 and isinstance(st_.targets[0], ast.Attribute) and \
+                        isinstance(st_.targets[0].value, ast.Name) and st_.targets[0].value.id == 'self' and \
+                        isinstance(st_.value, ast.Name) and st_.value.id in params:
+                    m[st_.value.id] = st_.targets[0].attr
+            return params, m
+    return None, None
+
+
+def _components(ctx, o):
+    """attribute -> final symbolic value of the coordinate object a conversion returns, whether it is built by a constructor call
+    with the values, or allocated and then filled field by field (stores and *= updates in program order)"""
+    v = o.value
+    if not (isinstance(v, Rat) and v.single_atom()):
+        raise shape_error('conversion does not return its result object')
+    name = v.single_atom()
+    ctor = None
+    for e in o.state.events:
+        if e.kind == 'call' and name.startswith(e.name + '(') and e.name[:1].isupper():
+            txt = '%s(%s)' % (e.name, ', '.join(vr(a) for a in e.args))
+            if txt == name or ctor is None:
+                ctor = e
+    if ctor is not None:
+        params, fields = _init_fields(ctx, ctor.name)
+        if params is None:
+            raise shape_error('constructor %s not found' % ctor.name)
+        vals = {}
+        for p_, a in zip(params, ctor.args):
+            if p_ in fields:
+                vals[fields[p_]] = a
+        for k, a in (getattr(ctor, 'kwargs', None) or {}).items():
+            if k in fields:
+                vals[fields[k]] = a
+        vals.update(_final_attr_values(o, name, vals))
+        return vals
+    return _final_attr_values(o, name)
+
+
 def rule_E(ctx):
     """C14.E geographic -> ECEF closed form"""
     f = ctx.prog.func(OC + '.GeoCoords.toECEFCoords')
     w = Walker(f, loop_mode='skip')
     o = _single(f, w)
-    vals = _final_attr_values(o, _obj_of(o))
+    vals = _components(ctx, o)
     lat = 'self.lat*math.pi/180.0'
     lon = 'self.lon*math.pi/180.0'
     N = '(Re / math.sqrt(1 - Fe*(2-Fe) * math.sin(%s)**2))' % lat
@@ -105,7 +150,7 @@ def rule_I(ctx):
                   node=fn.node, key='consts:' + fn.name)
     w = Walker(f, loop_mode='skip')
     o = _single(f, w)
-    vals = _final_attr_values(o, _obj_of(o))
+    vals = _components(ctx, o)
     b = '(Re*(1-Fe))'
     h = '(Re*Re - %s*%s)' % (b, b)
     p = 'math.sqrt(self.X*self.X + self.Y*self.Y)'
@@ -154,10 +199,10 @@ def rule_R(ctx):
     f2 = ctx.prog.func(OC + '.ENUCoords.toECEFCoords')
     w = Walker(f1, loop_mode='skip')
     o1 = _single(f1, w)
-    v1 = _final_attr_values(o1, _obj_of(o1))
+    v1 = _components(ctx, o1)
     w2 = Walker(f2, loop_mode='skip', rel=w.rel)
     o2 = _single(f2, w2)
-    v2 = _final_attr_values(o2, _obj_of(o2))
+    v2 = _components(ctx, o2)
     B = 'base.toECEFCoords()'
     A, restA = _matrix(w, v1, ['E', 'N', 'U'], ['self.X', 'self.Y', 'self.Z'])
     Bm, restB = _matrix(w, v1, ['E', 'N', 'U'], ['%s.X' % B, '%s.Y' % B, '%s.Z' % B])
@@ -205,6 +250,62 @@ def rule_R(ctx):
               witness={'dU/dX': vr(upx)}, node=f1.node, key='up-axis')
 
 
+# the defining constants of the Lambert-93 projection (IGN, RGF93): first eccentricity, pole, cone exponent, projection constant,
+# longitude of origin 3 deg E.  Used only to tell WHICH constant of the code plays which role (closeness 1e-6); the identities are
+# checked with the code's own values.
+_L93 = {'E': 0.0818191910428, 'Xp': 700000.0, 'Yp': 12655612.0499, 'n': 0.7256077650532670, 'C': 11754255.4261, 'lambda0': 0.05235987755982988}
+
+
+def _module_lookup(ctx, modname):
+    m = ctx.prog.module(modname)
+
+    def num(nd):
+        if isinstance(nd, ast.Constant) and isinstance(nd.value, (int, float)) and not isinstance(nd.value, bool):
+            return Rat.const(nd.value)
+        if isinstance(nd, ast.UnaryOp) and isinstance(nd.op, ast.USub):
+            v = num(nd.operand)
+            return -v if v is not None else None
+        return None
+
+    def look(name):
+        nd = m.consts.get(name)
+        if nd is None or name in ('Re', 'Fe', 'Be', 'Ee'):
+            return None
+        v = num(nd)
+        if v is not None:
+            return v
+        if isinstance(nd, (ast.Tuple, ast.List)):
+            vs = [num(e) for e in nd.elts]
+            if all(x is not None for x in vs):
+                return tuple(vs)
+        if isinstance(nd, ast.Dict) and all(isinstance(k, ast.Constant) for k in nd.keys):
+            vs = {k.value: num(v_) for k, v_ in zip(nd.keys, nd.values)}
+            if all(x is not None for x in vs.values()):
+                return vs
+        return None
+    return look
+
+
+def _roles(w, f, body):
+    """role -> (local name, value) for the Lambert constants of f, identified by value among the numeric constants its locals hold"""
+    pre = None
+    for o in w.run(body, State()):
+        pre = o.state
+        break
+    if pre is None:
+        raise shape_error('%s has no path' % f.qual, f.loc())
+    found = {}
+    cands = {}
+    for e in pre.events:
+        if e.kind == 'assign' and isinstance(e.value, Rat) and e.value.isconst() and e.name not in cands:
+            cands[e.name] = float(e.value.constval())
+    for role, std in _L93.items():
+        near = [(nm, v) for nm, v in cands.items() if abs(v - std) <= 1e-6 * max(1.0, abs(std))]
+        if near:
+            found[role] = near[0]
+    return found
+
+
 def rule_L(ctx):
     """C14.L Lambert-93"""
     fi = fo = None
@@ -215,19 +316,20 @@ def rule_L(ctx):
             fo = f
     if fi is None or fo is None:
         raise anchor_error('Lambert-93 functions not found', OC)
-    def consts(f):
-        out = {}
-        for s in body_nodocstring(f):
-            if isinstance(s, ast.Assign) and isinstance(s.targets[0], ast.Name) and isinstance(s.value, ast.Constant):
-                out[s.targets[0].id] = s.value.value
-        return out
-    ci, co = consts(fi), consts(fo)
-    ctx.check(ci == co and set(ci) >= {'E', 'Xp', 'Yp', 'n', 'C', 'lambda0'}, 'C14.K', fi,
-              'forward and inverse Lambert-93 use the same constants', witness={'inverse': ci, 'forward': co}, node=fi.node, key='lambert-consts')
-    w = Walker(fo, loop_mode='skip')
-    sym = {k: Rat.atom(k) for k in co}
-    body = [s for s in body_nodocstring(fo) if not (isinstance(s, ast.Assign) and isinstance(s.targets[0], ast.Name) and s.targets[0].id in co)]
-    outs = [o for o in w.run(body, State(dict(sym))) if o.kind == 'return']
+    look = _module_lookup(ctx, OC)
+    w = Walker(fo, loop_mode='skip', global_lookup=look)
+    wi = Walker(fi, loop_mode='skip', global_lookup=look)
+    ro = _roles(w, fo, body_nodocstring(fo))
+    ri = _roles(wi, fi, body_nodocstring(fi))
+    if set(ro) != set(_L93) or not set(ri) >= {'E', 'Xp', 'Yp', 'n', 'C', 'lambda0'}:
+        raise shape_error('Lambert-93 constants not identified (forward %s, inverse %s)' % (sorted(ro), sorted(ri)), fo.loc())
+    co = {k: v for k, (nm, v) in ro.items()}
+    ci = {k: v for k, (nm, v) in ri.items()}
+    diff = {k: {'forward': co[k], 'inverse': ci[k]} for k in co if co[k] != ci[k]}
+    ctx.check(not diff, 'C14.K', fi, 'forward and inverse Lambert-93 use the same constants', witness={'constants that differ': diff}, node=fi.node, key='lambert-consts')
+    sym = {k: Rat.const(v) for k, v in co.items()}
+    symi = {k: Rat.const(v) for k, v in ci.items()}
+    outs = [o for o in w.run(body_nodocstring(fo), State()) if o.kind == 'return']
     if len(outs) != 1:
         raise shape_error('_projToLambert93 not single path', fo.loc())
     enu = [e for e in outs[0].state.events if e.kind == 'call' and e.name == 'ENUCoords']
@@ -241,25 +343,18 @@ def rule_L(ctx):
               'forward Lambert-93 carries the height through unchanged', witness={'third coordinate': vr(enu[0].args[2]) if enu and len(enu[0].args) > 2 else None},
               node=fo.node, key='forward-z')
     ctx.check(ok, 'C14.L', fo, 'forward Lambert-93: X = Xp + C exp(-n L) sin(n(lon-lon0)), Y = Yp - C exp(-n L) cos(n(lon-lon0)), L the isometric latitude',
-              witness={'X': vr(enu[0].args[0])[:300] if enu else None, 'expected X': vr(eX)[:300]}, node=fo.node, key='forward')
+              witness={'X': vr(enu[0].args[0])[:300] if enu else None, 'expected X': vr(eX)[:300],
+                       'Y': vr(enu[0].args[1])[:300] if enu and len(enu[0].args) > 1 else None, 'expected Y': vr(eY)[:300]}, node=fo.node, key='forward')
     # inverse: lon, isometric latitude and the fixed-point iteration
-    wi = Walker(fi, loop_mode='skip')
-    ibody = [s for s in body_nodocstring(fi) if not (isinstance(s, ast.Assign) and isinstance(s.targets[0], ast.Name) and s.targets[0].id in ci)]
+    ibody = body_nodocstring(fi)
     loops = [s for s in ibody if isinstance(s, ast.For)]
     if len(loops) != 1:
         raise shape_error('__projFromLambert93: iteration loop not found', fi.loc())
-    pre = [o for o in wi.run(ibody[:ibody.index(loops[0])], State(dict(sym))) if o.kind == 'fall'][0].state
     X, Y = 'coords.getX()', 'coords.getY()'
-    elon = spec(wi, 'math.atan(-(%s - Xp)/(%s - Yp))/n + lambda0' % (X, Y), sym)
-    eL = spec(wi, '-math.log(math.sqrt((%s - Xp)**2 + (%s - Yp)**2)/C)/n' % (X, Y), sym)
-    ctx.check(isinstance(pre.env.get('lon'), Rat) and wi.rel.is_zero(pre.env['lon'] - elon), 'C14.L', fi,
-              'inverse longitude = atan(-(X-Xp)/(Y-Yp))/n + lon0 (undoes X-Xp = R sin, Y-Yp = -R cos)', witness={'found': vr(pre.env.get('lon'))[:200]},
-              node=fi.node, key='inv-lon')
-    ctx.check(isinstance(pre.env.get('latiso'), Rat) and wi.rel.is_zero(pre.env['latiso'] - eL), 'C14.L', fi,
-              'inverse isometric latitude = -log(R/C)/n with R the distance to (Xp, Yp)', witness={'found': vr(pre.env.get('latiso'))[:200]},
-              node=fi.node, key='inv-latiso')
+    elon = spec(wi, 'math.atan(-(%s - Xp)/(%s - Yp))/n + lambda0' % (X, Y), symi)
+    eL = spec(wi, '-math.log(math.sqrt((%s - Xp)**2 + (%s - Yp)**2)/C)/n' % (X, Y), symi)
     # what is returned: GeoCoords(lon in degrees, lat in degrees, height carried through)
-    full = [o for o in wi.run(ibody, State(dict(sym))) if o.kind == 'return']
+    full = [o for o in wi.run(ibody, State()) if o.kind == 'return']
     if len(full) != 1:
         raise shape_error('__projFromLambert93 is not single-path', fi.loc())
     gc = [e for e in full[0].state.events if e.kind == 'call' and e.name == 'GeoCoords']
@@ -268,72 +363,221 @@ def rule_L(ctx):
               witness={'arguments': [vr(a)[:60] for a in gc[0].args] if gc else None,
                        'why': 'a dropped third argument silently returns height 0: a point with altitude does not round-trip'}, node=fi.node, key='inverse-z')
     if gc and len(gc[0].args) >= 2:
-        deg = spec(wi, '180/math.pi', sym)
+        deg = spec(wi, '180/math.pi', symi)
         a0 = gc[0].args[0]
         oklon = isinstance(a0, Rat) and wi.rel.is_zero(a0 - elon * deg)
-        ctx.check(oklon, 'C14.L', fi, 'the longitude returned is the inverse longitude converted to degrees', witness={'found': vr(a0)[:200]}, node=fi.node, key='inverse-lon-deg')
-    st = State(dict(sym))
-    st.env['phi'] = Rat.atom('phi@')
-    st.env['latiso'] = Rat.atom('L')
+        ctx.check(oklon, 'C14.L', fi, 'the longitude returned is atan(-(X-Xp)/(Y-Yp))/n + lon0 in degrees (undoes X-Xp = R sin, Y-Yp = -R cos)',
+                  witness={'found': vr(a0)[:300], 'expected': vr(elon * deg)[:300]}, node=fi.node, key='inv-lon')
+    # the latitude iteration: phi <- 2 atan( ((1+E sin phi)/(1-E sin phi))^(E/2) * exp(L) ) - pi/2 with L = -log(R/C)/n; the state
+    # before the loop supplies every local the body reads (hoisted sub-expressions included), phi is made symbolic
+    pre = [o for o in wi.run(ibody[:ibody.index(loops[0])], State()) if o.kind == 'fall']
+    if len(pre) != 1:
+        raise shape_error('__projFromLambert93 prologue is not straight-line', fi.loc())
+    st = pre[0].state.fork()
+    assigned = names_stored(loops[0].body)
+    it = [nm for nm in assigned if isinstance(st.env.get(nm), Rat)]
+    if len(it) != 1:
+        # the iterated variable is the one both read and written by the body
+        reads = {x.id for x in ast.walk(loops[0]) if isinstance(x, ast.Name) and isinstance(x.ctx, ast.Load)}
+        it = [nm for nm in assigned if nm in reads and nm in st.env]
+    if len(it) != 1:
+        raise shape_error('Lambert iteration: iterated variable not identified (%s)' % sorted(assigned), fi.loc(loops[0]))
+    st.env[it[0]] = Rat.atom('phi@')
     bo = [o for o in wi.run(loops[0].body, st) if o.kind == 'fall']
     if len(bo) != 1:
         raise shape_error('Lambert iteration body not straight-line', fi.loc(loops[0]))
-    ephi = spec(wi, '2*math.atan(((1 + E*math.sin(p0))/(1 - E*math.sin(p0)))**(E/2) * math.exp(L)) - math.pi/2', dict(sym, p0=Rat.atom('phi@'), L=Rat.atom('L')))
-    got = bo[0].state.env.get('phi')
+    ephi = spec(wi, '2*math.atan(((1 + E*math.sin(p0))/(1 - E*math.sin(p0)))**(E/2) * math.exp(LL)) - math.pi/2', dict(symi, p0=Rat.atom('phi@'), LL=eL))
+    got = bo[0].state.env.get(it[0])
     ctx.check(isinstance(got, Rat) and wi.rel.is_zero(got - ephi), 'C14.L', fi,
-              'the latitude iteration inverts the forward isometric latitude: reciprocal ratio (1+E sin)/(1-E sin), same exponent E/2',
-              witness={'found': vr(got)[:300], 'expected': vr(ephi)[:300]}, node=loops[0], key='inv-iter')
+              'the latitude iteration inverts the forward isometric latitude: phi <- 2 atan(((1+E sin phi)/(1-E sin phi))^(E/2) exp(L)) - pi/2, '
+              'L = -log(R/C)/n with R the distance to the pole (Xp, Yp)',
+              witness={'found': vr(got)[:400], 'expected': vr(ephi)[:400]}, node=loops[0], key='inv-iter')
+    if gc and len(gc[0].args) >= 2:
+        a1 = gc[0].args[1]
+        final = full[0].state.env.get(it[0])
+        oklat = isinstance(a1, Rat) and isinstance(final, Rat) and wi.rel.is_zero(a1 - final * spec(wi, '180/math.pi', symi))
+        ctx.check(oklat, 'C14.L', fi, 'the latitude returned is the iterated latitude in degrees', witness={'found': vr(a1)[:200]}, node=fi.node, key='inv-lat-deg')
 
 
-def rule_B(ctx):
-    """C14.B whole-track conversions"""
-    f = ctx.prog.func(TRACK + '.toENUCoords')
-    w = Walker(f, loop_mode='once')
-    outs = [o for o in w.run(body_nodocstring(f), State()) if o.kind == 'return']
-    n_conv = 0
-    for o in outs:
-        conv = [e for e in o.state.events if e.kind == 'call' and e.name == 'toENUCoords']
-        bst = [e for e in o.state.events if e.kind == 'store' and e.name == 'self.base']
-        if not conv:
-            continue
-        n_conv += 1
-        pathtxt = [repr(c) for c, _ in o.state.conds][:4]
-        ctx.check(len(bst) >= 1, 'C14.B', f, 'a conversion to local coordinates records the base it used', witness={'path': pathtxt}, node=f.node, key='records')
-        if not bst:
-            continue
-        c = conv[0]
-        if len(c.args) == 2:
-            # ENU -> ENU: from the OLD base to the new one, new base recorded afterwards
-            ok = vr(c.args[0]) == 'self.base' and vr(c.args[1]) == f.params[1] and all(b.seq > c.seq for b in bst)
-            ctx.check(ok, 'C14.B', f,
-                      're-basing converts every point from the former base to the new base, and only then records the new base',
-                      witness={'conversion arguments': [vr(a) for a in c.args], 'base stored before the conversion': any(b.seq < c.seq for b in bst),
-                               'why': 'if the new base is recorded first, points are converted from the new base to the new base: they do not move'},
-                      node=c.node, key='rebase')
-            ctx.check(vr(bst[-1].value) == '%s.toGeoCoords()' % f.params[1], 'C14.B', f, 'the base recorded is the geographic form of the new base',
-                      witness={'stored': vr(bst[-1].value)}, node=bst[-1].node, key='rebase-value')
-        else:
-            rec = vr(bst[-1].value)
-            conv = vr(c.args[0]) if len(c.args) == 1 else None
-            if rec == conv:
-                # the base object itself is recorded: only an integer SRID may be stored as is
-                guards = [repr(c_) for c_, _ in bst[-1].conds if 'isinstance' in repr(c_) and conv in repr(c_)]
-                ok = guards == ['bool(isinstance(%s, int))' % conv]
-                ctx.check(ok, 'C14.B', f, 'a coordinate base is recorded as a copy (base.toGeoCoords()); only an integer SRID is stored as it is',
-                          witness={'recorded': rec, 'under': guards,
-                                   'why': 'recording the caller\'s object itself lets a later in-place change of that object silently move the recorded base'},
-                          node=bst[-1].node, key='geo-base-alias')
-            else:
-                ok = conv is not None and rec == '%s.toGeoCoords()' % conv
-                ctx.check(ok, 'C14.B', f, 'the base recorded is (the geographic copy of) the one the points were converted with',
-                          witness={'converted with': conv, 'recorded': rec}, node=c.node, key='geo-base')
-        ctx.check(vr(c.recv).endswith('.position') and 'getObs(i)' in vr(c.recv), 'C14.B', f, 'every observation is converted', witness={}, node=c.node, key='all-obs:%d' % len(c.args))
-    if n_conv < 2:
-        raise shape_error('Track.toENUCoords: conversion arms not found', f.loc())
-    for nm in ('toGeoCoords', 'toECEFCoords'):
-        g = ctx.prog.func(TRACK + '.' + nm)
-        t = unparse(g.node)
-        ctx.recognise('base = self.base' in t, 'C14.B', g, '%s defaults to the recorded base of the track' % nm, witness={}, node=g.node, key='default:' + nm)
+def rule_T(ctx):
+    """C14.B whole-track conversions, by interpretation of the repository's Track class on tracks of tagged positions:
+    every observation converted once, with the right base(s); the base used is the base recorded (a copy, not the caller's object);
+    conversions back default to the recorded base"""
+    from .. import absint, orders
+    fn = absint.funcs(ctx, 'tracklib.core.track')
+    fn['deepcopy'] = absint.deep_copy
+
+    class Exit(Exception):
+        pass
+
+    def _exit(*a):
+        raise orders.Raised('SystemExit', 'exit()')
+    fn['exit'] = _exit
+    T = absint.classref(ctx, TRACK, fn)
+
+    def mk(kind):
+        class C(orders.PyStub):
+            isa = (kind,)
+            repo_methods = {k: v for k, v in absint.methods_of(ctx, OC + '.' + kind).items() if k in ('copy',) or (kind == 'GeoCoords' and k == 'toGeoCoords')
+                            or (kind == 'ECEFCoords' and k == 'toECEFCoords') }
+            repo_funcs = fn
+
+            def __init__(self, a, b, c=0.0, tag=None):
+                f3 = {'GeoCoords': ('lon', 'lat', 'hgt'), 'ENUCoords': ('E', 'N', 'U'), 'ECEFCoords': ('X', 'Y', 'Z')}[kind]
+                for k_, v_ in zip(f3, (a, b, c)):
+                    setattr(self, k_, v_)
+                self.tag = tag
+                self.src = None
+                self.how = None
+
+            def vals(self):
+                return tuple(v for k_, v in sorted(vars(self).items()) if k_ not in ('tag', 'src', 'how'))
+
+            def _conv(self, to, *bases):
+                r = CLS[to](0.0, 0.0, 0.0)
+                r.src, r.how = self, (to,) + tuple(bases)
+                return r
+
+            def getX(self):
+                return self.vals()[0]
+
+            def __repr__(self):
+                return '%s<%s>' % (kind, self.tag if self.tag is not None else ('from ' + repr(self.src) if self.src is not None else self.vals()))
+        C.__name__ = kind
+        C.__qualname__ = kind
+        return C
+    CLS = {}
+    for k in ('GeoCoords', 'ENUCoords', 'ECEFCoords'):
+        CLS[k] = mk(k)
+        fn[k] = CLS[k]
+        fn['__globals__'][k] = CLS[k]
+    G, E, X = CLS['GeoCoords'], CLS['ENUCoords'], CLS['ECEFCoords']
+    # conversions of tagged positions (the formulas themselves are decided by C14.E/I/R); a Geo/ECEF base is accepted in either form
+    G.toECEFCoords = lambda self: self._conv('ECEFCoords')
+    G.toENUCoords = lambda self, base: self._conv('ENUCoords', base)
+    X.toGeoCoords = lambda self: self._conv('GeoCoords')
+    X.toENUCoords = lambda self, base: self._conv('ENUCoords', base)
+    E.toECEFCoords = lambda self, base: self._conv('ECEFCoords', base)
+    E.toGeoCoords = lambda self, base: self._conv('GeoCoords', base)
+    E.toENUCoords = lambda self, base1, base2: self._conv('ENUCoords', base1, base2)
+
+    class O(orders.PyStub):
+        isa = ('Obs',)
+
+        def __init__(self, k, pos):
+            self.k = k
+            self.position = pos
+            self.timestamp = None
+            self.features = []
+
+        def copy(self):
+            return O(self.k, self.position)
+
+    ft = ctx.prog.func(TRACK + '.toENUCoords')
+    n = 3
+    found = {}
+    ncases = [0]
+
+    def same_base(b, ref):
+        return b is ref or (type(b) is type(ref) and isinstance(b, orders.PyStub) and hasattr(b, 'vals') and b.vals() == ref.vals())
+
+    def run_case(label, kind, method, args, pre_base, expect):
+        """expect(track, old positions, result) -> (key, description, witness) for the first thing wrong, or None"""
+        ncases[0] += 1
+        olds = [CLS[kind](10.0 + k, 20.0 + k, 30.0 + k, tag='p%d' % k) for k in range(n)]
+        t = T([O(k, p_) for k, p_ in enumerate(olds)], 'u', 't')
+        t.fields['base'] = pre_base
+        f = ctx.prog.func(TRACK + '.' + method)
+        try:
+            res = t.call(method, *args)
+        except orders.Unsupported as ex:
+            raise shape_error('Track.%s not interpretable: %s' % (method, ex), f.loc())
+        except (orders.Raised, TypeError, AttributeError, IndexError, KeyError, ValueError) as ex:
+            found.setdefault((method, 'fails'), (f, 'Track.%s converts the track' % method, {'case': label, 'exception': '%s: %s' % (type(ex).__name__, str(ex)[:160])}))
+            return
+        pts = t.fields['_Track__POINTS']
+        bad = expect(t, olds, [o.position for o in pts])
+        if bad is not None:
+            key, desc, wit = bad
+            found.setdefault((method, key), (f, desc, dict(wit, case=label)))
+
+    def converted(to, bases_of):
+        def chk(t, olds, news):
+            for k, (o_, nw) in enumerate(zip(olds, news)):
+                if nw is o_ or getattr(nw, 'src', None) is None:
+                    return ('all-obs', 'every observation of the track is converted', {'observation left as it was': k, 'of': len(olds)})
+                if nw.src is not o_ or nw.how[0] != to:
+                    return ('all-obs', 'every observation is converted once, from its own former position', {'observation': k, 'position now': repr(nw), 'conversion': repr(nw.how)})
+                want = bases_of(t)
+                got = nw.how[1:]
+                if len(got) != len(want) or not all(same_base(g_, w_) for g_, w_ in zip(got, want)):
+                    return ('base-used', 'each position is converted with the base(s) the conversion is documented to use',
+                            {'observation': k, 'bases passed': [repr(g_) for g_ in got], 'expected': [repr(w_) for w_ in want]})
+            return None
+        return chk
+
+    def recorded(ref_of, also=None):
+        def chk(t, olds, news):
+            ref = ref_of(olds)
+            b = t.fields.get('base')
+            if isinstance(ref, int):
+                return None if b == ref else ('records', 'the SRID used is recorded as the base', {'recorded': repr(b), 'used': ref})
+            if not (isinstance(b, G) and ((isinstance(ref, G) and b.vals() == ref.vals()) or getattr(b, 'src', None) is ref or (getattr(b, 'src', None) is not None and same_base(b.src, ref)))):
+                return ('records', 'a conversion to local coordinates records, in geographic form, the base it used',
+                        {'base used': repr(ref), 'base recorded': repr(b)})
+            if b is ref:
+                return ('geo-base-alias', 'the base is recorded as a copy: the caller\'s own object is not kept',
+                        {'recorded': repr(b), 'why': 'a later in-place change of the caller\'s object would silently move the recorded base: the round trip through the track breaks'})
+            return None
+        return chk
+
+    def both(*chks):
+        def chk(t, olds, news):
+            for c in chks:
+                r = c(t, olds, news)
+                if r is not None:
+                    return r
+            return None
+        return chk
+    Bg = lambda: G(2.0, 48.0, 100.0, tag='B')
+    Bx = lambda: X(4.2e6, 1.7e5, 4.7e6, tag='Bx')
+    for kind in ('GeoCoords', 'ECEFCoords'):
+        for mkb, lbl in ((Bg, 'geographic base'), (Bx, 'geocentric base')):
+            b = mkb()
+            run_case('%s track, toENUCoords(%s)' % (kind[:-6], lbl), kind, 'toENUCoords', [b], None,
+                     both(converted('ENUCoords', lambda t, b=b: [b]), recorded(lambda olds, b=b: b)))
+        run_case('%s track, toENUCoords() without a base' % kind[:-6], kind, 'toENUCoords', [], None,
+                 both(converted('ENUCoords', lambda t: [t_first[0]]) if False else (lambda t, olds, news: converted('ENUCoords', lambda t_: [olds[0]])(t, olds, news)),
+                      recorded(lambda olds: olds[0])))
+    old_b = Bg()
+    new_b = G(3.0, 45.0, 10.0, tag='B2')
+    run_case('ENU track based at B, toENUCoords(B2)', 'ENUCoords', 'toENUCoords', [new_b], old_b,
+             both(converted('ENUCoords', lambda t: [old_b, new_b]), recorded(lambda olds: new_b)))
+    # a new base that differs from the recorded one in a single component (re-basing must still happen)
+    for comp, vals_ in (('longitude', (2.5, 48.0, 100.0)), ('latitude', (2.0, 48.5, 100.0)), ('height', (2.0, 48.0, 135.0))):
+        ob, nb = Bg(), G(*vals_, tag='B+d' + comp)
+        run_case('ENU track based at B, toENUCoords(base differing from B in %s only)' % comp, 'ENUCoords', 'toENUCoords', [nb], ob,
+                 both(converted('ENUCoords', lambda t, ob=ob, nb=nb: [ob, nb]), recorded(lambda olds, nb=nb: nb)))
+    new_x = Bx()
+    old_b2 = Bg()
+    run_case('ENU track based at B, toENUCoords(geocentric B2)', 'ENUCoords', 'toENUCoords', [new_x], old_b2,
+             both(converted('ENUCoords', lambda t: [old_b2, new_x]), recorded(lambda olds: new_x)))
+    # conversions back: explicit base / recorded base
+    for method, to in (('toGeoCoords', 'GeoCoords'), ('toECEFCoords', 'ECEFCoords')):
+        rb = Bg()
+        run_case('ENU track with recorded base, %s()' % method, 'ENUCoords', method, [], rb, converted(to, lambda t, rb=rb: [rb]))
+        eb = G(5.0, 44.0, 0.0, tag='B3')
+        rb2 = Bg()
+        run_case('ENU track, %s(explicit base)' % method, 'ENUCoords', method, [eb], rb2, converted(to, lambda t, eb=eb: [eb]))
+    run_case('Geo track, toECEFCoords()', 'GeoCoords', 'toECEFCoords', [], None, converted('ECEFCoords', lambda t: []))
+    run_case('ECEF track, toGeoCoords()', 'ECEFCoords', 'toGeoCoords', [], None, converted('GeoCoords', lambda t: []))
+    for (method, key), (f, desc, wit) in sorted(found.items()):
+        ctx.violation('C14.B', f, desc, wit, node=f.node, key=key)
+    for method in ('toENUCoords', 'toGeoCoords', 'toECEFCoords'):
+        if not any(m_ == method for m_, _ in found):
+            ctx.ok('C14.B', ctx.prog.func(TRACK + '.' + method), 'Track.%s: every observation converted once from its own position with the documented base(s); '
+                   'base recorded = base used (as a copy); defaults to the recorded base' % method, node=ctx.prog.func(TRACK + '.' + method).node)
+    ctx.extra['C14.T cases'] = ncases[0]
 
 
 RULES = [
@@ -341,6 +585,6 @@ RULES = [
     ('C14.I', rule_I, 'quick'),
     ('C14.R', rule_R, 'quick'),
     ('C14.L', rule_L, 'quick'),
-    ('C14.B', rule_B, 'quick'),
+    ('C14.T', rule_T, 'quick'),
 ]
 MIN_OBLIGATIONS = 20
